@@ -407,8 +407,11 @@ def complex_sustain_from_parsed_datas(datas: Sequence[NoteEvent.ParsedData]) -> 
     """
     # Undefined behavior if there are other open notes. We could validate this, but this function
     # runs in a very tight loop.
-    if datas[0].note_track_index == NoteTrackIndex.OPEN:
-        return datas[0].sustain
+    # The open-note line need not be the first line of its tick: a forced or tap flag line
+    # ("N 5"/"N 6") sorts before "N 7".
+    for d in datas:
+        if d.note_track_index == NoteTrackIndex.OPEN:
+            return d.sustain
 
     sustain_list = _SustainList([None] * 5)
     for d in filter(lambda d: d.note_track_index.is_5_note(), datas):
